@@ -680,6 +680,28 @@ func c04ValueAdd(c *Ctx, m *Module, rule string) {
 		}
 		r.Check(rule, "Counter.add/sum tested for wrap-around", m.Pos(bo.Pos()), tested, "every old+n that can be installed must be compared with old (sum < old ⇒ saturate); an untested sum wraps at 2^64")
 	}
+	// … or the sum is made by bits.Add64, whose carry is the overflow test
+	for _, cs := range callsIn(add, "math/bits.Add64") {
+		cl, ok := cs.(*ssa.Call)
+		if !ok || len(loadsOf(cl)) == 0 {
+			continue
+		}
+		nAdd++
+		tested := false
+		for _, u := range referrers(cl) {
+			if e, isE := u.(*ssa.Extract); isE && e.Index == 1 {
+				for _, u2 := range referrers(e) {
+					if cmp, ok := u2.(*ssa.BinOp); ok {
+						switch cmp.Op {
+						case token.NEQ, token.EQL, token.GTR, token.LSS, token.GEQ, token.LEQ:
+							tested = true
+						}
+					}
+				}
+			}
+		}
+		r.Check(rule, "Counter.add/sum tested for wrap-around", m.Pos(cl.Pos()), tested, "the carry of bits.Add64 must be tested (carry ⇒ saturate)")
+	}
 	r.Check(rule, "Counter.add/sums enumerated", m.Pos(add.Pos()), nAdd >= 1, fmt.Sprintf("%d", nAdd))
 }
 
